@@ -3,6 +3,7 @@ import json
 import os
 import random
 import subprocess
+import instgen
 from concurrent.futures import ThreadPoolExecutor
 import checklib as C
 from props import c04, c07
@@ -88,6 +89,26 @@ def run(ctx):
         k = stats.get("_families_from", len(hostile))
         hostile = hostile[:k:3] + hostile[k:]
     reqs += hostile
+    # long lines: a last instruction (and an instruction in the middle) whose disassembly is 1000 .. 1030, 4096, 8192, 65536 and 70000 bytes
+    # long, as a string and as an id list — what the tool writes must be the whole text whatever the length of a line or of the output
+    g1 = instgen.Gen(TG, random.Random(ctx.seed))
+    sv, idr = g1.vix["LiteralString"], g1.vix["IdRef"]
+    nlong = 0
+    for L in list(range(990, 1031)) + [2047, 2048, 4095, 4096, 4097, 8191, 8192, 8193, 65535, 65536, 70000]:
+        st = instgen.Inst(g1.opv["String"], "String", None, 1, [instgen.Op("s", sv, list(instgen.long_string(L, L % 26)))])
+        nm = instgen.Inst(g1.opv["Name"], "Name", None, None, [instgen.Op("w", idr, 1), instgen.Op("s", sv, list(b"n"))])
+        for insts in ([st], [st, nm]):
+            w2 = instgen.header(version=0x00010300, bound=9)
+            for i_ in insts:
+                w2 += i_.words()
+            reqs.append("dismain " + instgen.to_bytes(w2).hex())
+            nlong += 1
+    for n in (100, 330, 340, 341, 342, 350, 400, 1365, 1366, 5000, 20000):
+        ts = instgen.Inst(g1.opv["TypeStruct"], "TypeStruct", None, 1, [instgen.Op("w", idr, 2 + (k % 7)) for k in range(n)])
+        w2 = instgen.header(version=0x00010300, bound=9) + ts.words()
+        reqs.append("dismain " + instgen.to_bytes(w2).hex())
+        nlong += 1
+    stats["long lines"] = nlong
     datas = [bytes.fromhex(r.split(" ")[1]) if r.split(" ")[1] != "-" else b"" for r in reqs]
     results = run_binary(datas)
     lib = C.run_impl(ctx, ["disasbin " + (d.hex() or "-") for d in datas])
